@@ -27,7 +27,7 @@ _MISSING = object()
 
 
 def _scalar_ty(ty):
-    return (ty or "").replace("&", "").replace("mut ", "").strip() in ("f32", "f64")
+    return (ty or "").replace("&", "").replace("mut ", "").strip() in ("f32", "f64", "bool")
 
 
 def is_form(v):
@@ -43,7 +43,7 @@ def canon(v):
         return "(" + ", ".join(canon(x) for x in v[1]) + ")"
     if v[0] == "struct":
         return "{" + ", ".join(f"{k}: {canon(x)}" for k, x in sorted(v[1].items())) + "}"
-    if v[0] == "obj":
+    if v[0] in ("obj", "variant"):
         return v[1]
     if v[0] == "str":
         return repr(v[1])
@@ -96,7 +96,7 @@ def equal(a, b):
         return len(a[1]) == len(b[1]) and all(equal(x, y) for x, y in zip(a[1], b[1]))
     if a[0] in ("struct", "match"):
         return set(a[1]) == set(b[1]) and all(equal(a[1][k], b[1][k]) for k in a[1])
-    if a[0] in ("obj", "str", "bool"):
+    if a[0] in ("obj", "str", "bool", "variant"):
         return a[1] == b[1]
     if a[0] == "some":
         return equal(a[1], b[1])
@@ -108,13 +108,14 @@ def equal(a, b):
 
 
 class Evaluator:
-    def __init__(self, prog, inline_prefixes=("svgdx::",), max_depth=4, opaque=(), presets=None, type_alias=None, watch=(), name_case=None, transparent=()):
+    def __init__(self, prog, inline_prefixes=("svgdx::",), max_depth=4, opaque=(), presets=None, type_alias=None, watch=(), name_case=None, transparent=(), iflet=None):
         self.prog = prog
         self.opaque = set(opaque)
         self.presets = presets or {}  # type -> value, for enum-typed selector locals (case specialisation)
         self.type_alias = type_alias or {}  # type -> symbolic object name for locals of that type whose value is unknown
         self.watch = set(watch)  # method / function names whose evaluated argument lists are recorded
         self.calls = []
+        self.iflet = iflet  # "then" / "else": branch taken by every `if let` whose scrutinee the domain cannot decide
         self.name_case = name_case  # element name assumed for matches over `self.name.as_str()`
         self.transparent = set(transparent)  # local functions that return their (single) argument unchanged for our purposes (fstr)
         self.inline_prefixes = inline_prefixes
@@ -233,7 +234,7 @@ class Evaluator:
                     return ("obj", self.type_alias.get(ty, l))
                 if not is_form(v) and v[0] == "obj" and _scalar_ty(ty):
                     return {v[1]: Fraction(1)}
-                if not is_form(v) and _scalar_ty(ty):
+                if not is_form(v) and v[0] != "bool" and _scalar_ty(ty):
                     return {l: Fraction(1)}  # a number the domain cannot express: an opaque symbol named after the local
                 return v
             path = res.get("path", "")
@@ -242,9 +243,12 @@ class Evaluator:
             if path.split("::")[-1] == "None" and "Ctor" in str(res.get("dk", "")):
                 return ("none",)
             if "Ctor" in str(res.get("dk", "")) or "Variant" in str(res.get("dk", "")):
-                return ("obj", path.split("::")[-1])
+                return ("variant", path.split("::")[-1])
             return None
         if k == "Field":
+            fty = (n.get("ty") or "").replace("&", "").replace("mut ", "").strip()
+            if fty in self.presets:
+                return self.presets[fty]
             base = self.eval(n["x"], env, st)
             return self._as_scalar(self._field(base, n["name"]), n.get("ty"))
         if k == "Unary":
@@ -268,6 +272,8 @@ class Evaluator:
             return self._binary(n["op"], a, b)
         if k == "Tup":
             return ("tup", [self.eval(x, env, st) for x in n["items"]])
+        if k == "Array":
+            return ("tup", [self.eval(x, env, st) for x in n.get("items", n.get("elems", []))])
         if k == "Struct":
             out = {}
             base = self.eval(n["base"], env, st) if isinstance(n.get("base"), dict) else None
@@ -301,9 +307,18 @@ class Evaluator:
             return self.eval(n.get("x") or n.get("e"), env, st) if (n.get("x") or n.get("e")) else ("tup", [])
         if k == "If":
             env_t = dict(env)
+            undecided_let = False
             for lc in hirq.exprs(n["cond"], "LetCond") if isinstance(n.get("cond"), dict) else []:
                 iv = self.eval(lc["init"], env_t, st) if isinstance(lc.get("init"), dict) else None
                 self._bind_some(lc["pat"], iv, env_t)
+                undecided_let = True
+            if undecided_let and self.iflet in ("then", "else"):
+                if self.iflet == "then":
+                    r = self.eval(n["then"], env_t, st)
+                    for name in list(env):
+                        env[name] = env_t.get(name)
+                    return r
+                return self.eval(n["else"], env, st) if n.get("else") else ("tup", [])
             c = self.eval(n["cond"], env, st) if isinstance(n.get("cond"), dict) and n["cond"].get("k") != "LetCond" else None
             if c is not None and not is_form(c) and c[0] == "bool":
                 if c[1]:
@@ -399,12 +414,10 @@ class Evaluator:
         if k == "AssignOp":
             l = s["l"]
             if l.get("k") == "Path" and (l.get("res") or {}).get("local"):
-                cur = env.get(l["res"]["local"])
+                cur = self.eval(l, env, st)
                 r = self.eval(s["r"], env, st)
-                if is_form(cur) and is_form(r) and s.get("op") in ("Add", "Sub"):
-                    env[l["res"]["local"]] = L._add(cur, r, 1 if s["op"] == "Add" else -1)
-                else:
-                    env[l["res"]["local"]] = None
+                op = (s.get("op") or "").replace("Assign", "")
+                env[l["res"]["local"]] = self._binary(op, cur, r) if op in ("Add", "Sub", "Mul", "Div") else None
             return None
         if k == "Ret":
             return ("ret", self.eval(s.get("x") or s.get("e"), env, st) if (s.get("x") or s.get("e")) else ("tup", []))
@@ -431,12 +444,36 @@ class Evaluator:
             if chosen is not None:
                 return self.eval(chosen["body"], env, st)
         sc = self.eval(n["scrut"], env, st)
-        if sc is not None and not is_form(sc) and sc[0] == "obj":
-            # a known variant selects its arm (case specialisation)
+        if sc is not None and not is_form(sc) and sc[0] == "variant":
+            # a known variant selects its arm (case specialisation): first arm whose pattern admits it and whose
+            # guard does not evaluate to false
             for arm in n["arms"]:
                 for alt in _alts(arm["pat"]):
-                    if alt.get("p") in ("path", "tstruct", "struct") and (alt.get("res") or {}).get("path", "").split("::")[-1] == sc[1] and not arm.get("guard"):
-                        return self.eval(arm["body"], env, st)
+                    p = alt.get("p")
+                    hit = False
+                    if p in ("path", "tstruct", "struct") and (alt.get("res") or {}).get("path", "").split("::")[-1] == sc[1]:
+                        hit = True
+                        i = 0
+                        for q in alt.get("pats", []):
+                            i += 1
+                            if q.get("p") == "bind":
+                                env[q["name"]] = ("obj", f"{sc[1]}.{i}")
+                    elif p == "wild":
+                        hit = True
+                    elif p == "bind":
+                        hit = True
+                        env[alt["name"]] = sc
+                    if not hit:
+                        continue
+                    if arm.get("guard"):
+                        g = self.eval(arm["guard"], env, st)
+                        if g is not None and not is_form(g) and g[0] == "bool":
+                            if not g[1]:
+                                continue
+                        else:
+                            return None  # guard not decidable: the case split is not exact
+                    return self.eval(arm["body"], env, st)
+            return None
         for arm in n["arms"]:
             for alt in _alts(arm["pat"]):
                 e2 = dict(env)
@@ -475,9 +512,13 @@ class Evaluator:
         recv = self.eval(n["recv"], env, st)
         args = [self.eval(a, env, st) for a in n["args"]]
         rty = (n.get("recv_ty") or "").lstrip("&").replace("mut ", "")
+        if recv is None and rty in self.type_alias:
+            recv = ("obj", self.type_alias[rty])
         if name in self.watch:
             self.calls.append(dict(name=name, recv=recv, args=args, line=n.get("line")))
         if name in TRANSPARENT:
+            return recv
+        if name in ("to_string", "to_owned", "as_str") and recv is not None and not is_form(recv) and recv[0] == "str":
             return recv
         if name in ("unwrap_or", "unwrap_or_else", "unwrap", "expect", "unwrap_or_default") and recv is not None and not is_form(recv) and recv[0] == "some":
             return recv[1]
@@ -493,7 +534,7 @@ class Evaluator:
                 # a call with a known variant argument selects that arm
                 if not is_form(r) and r[0] == "match":
                     for a in args:
-                        if a is not None and not is_form(a) and a[0] == "obj" and a[1] in r[1]:
+                        if a is not None and not is_form(a) and a[0] == "variant" and a[1] in r[1]:
                             return r[1][a[1]]
                 if sub["self"] is not None and n["recv"].get("k") == "Path" and (n["recv"].get("res") or {}).get("local"):
                     env[n["recv"]["res"]["local"]] = sub["self"]
@@ -563,7 +604,11 @@ def _pat_name(q):
     if q.get("p") == "bind":
         return "_"
     if q.get("p") == "lit":
-        return str(q.get("lit"))
+        lit = q.get("lit")
+        if isinstance(lit, dict):
+            for v in lit.values():
+                return str(v).lower() if isinstance(v, bool) else str(v)
+        return str(lit)
     return "?"
 
 
